@@ -31,6 +31,10 @@ OBLIGATIONS = [
     'C02.cycle_soundB', 'C02.runD_mono', 'C02.execD_masked', 'C02.powerup_crel', 'C02.init_list_last', 'C02.initial_block_sound', 'C02.trModule_items',
     'C02.transpile_seq_sound_from_powerup', 'C02.powerup_safe_of_noOutRead', 'C02.powerup0', 'C02.powerup_crel_full',
     'C02.transpile_sound_from_powerup_all', 'C02.init_outputs_zero', 'C02.initial_block_establishes_powerup',
+    # the interpreter actually run on the emitted text (Verilog/Run.lean): store laws, execution congruence, scheduling, sessions
+    'C02.store_wok', 'C02.store_write_laws', 'C02.evalAssign_norm', 'C02.expr_congr', 'C02.exec_congr', 'C02.applyQ_congr',
+    'C02.cycle_single_posedge', 'C02.trS_simple', 'C02.run_cycle', 'C02.drive_congr', 'C02.run_history', 'C02.fs_laws',
+    'C02.transpile_seq_sound_run_partial',
     # negative results (each replayed on the real transpiler by the witnesses)
     'C02.or_value_counterexample', 'C02.narrow_compare_counterexample', 'C02.cmp_rhs_unparenthesised_counterexample',
     'C02.guard_fallthrough_counterexample', 'C02.uninit_output_counterexample', 'C02.bit31_counterexample',
@@ -148,6 +152,14 @@ PROPOSED_FINDINGS = [
      "witness": {"src": "propagate(): self.cnt = self.cnt + 1"},
      "what": "state attributes used by propagate() (or first assigned inside the method) are declared `integer` without initial value; "
              "negative constructor constants / port attributes used as values are outside the proved fragment"},
+    {"id": "C02-init-output-renamed", "property": "C02", "status": "fixed", "fixed_by": "19c507c", "anchor": "py4hw/transpilation/python2verilog_transpilation.py:86",
+     "class_expr": "r.get('out_name_is_other_attr') and r.get('kind') in ('x-after-write','x-state','x-consequence','v-error')",
+     "witness": {"src": "self.q = self.addIn('a', a); self.a = self.addOut('q', q); clock(): self.a.prepare(self.q.get() + 1)",
+                 "text": "initial begin a=0; end", "signal": "q", "sim": 0, "verilog": "x"},
+     "what": "the `initial` block names the output registers by PORT name, and ReplaceWiresAndVariables.visit_VerilogWire then applies the "
+             "attribute->port lookup to them once more: when an output port's name is the attribute name of ANOTHER port "
+             "(self.q = addIn('a'); self.a = addOut('q')) the block assigns 0 to that other port (`a=0;`, a procedural assignment to an input) "
+             "and the output register is never initialised (x); repaired in /repo 19c507c (initialiser wires marked final)"},
     {"id": "C02-uninit-output-regs", "property": "C02", "status": "fixed", "fixed_by": "c2ba9bf", "anchor": "py4hw/rtl_generation.py:715",
      "class_expr": "r.get('kind')=='x-at-powerup' or (r.get('kind') in ('x-after-write','x-consequence','x-state') and r.get('reads_own_output') "
                    "and r.get('tainted') and not r.get('powerup_safe'))",
@@ -292,6 +304,9 @@ class Dut:
             for p in self.syntax['ports']:
                 self.attr_of_port[p['pyport']] = p['attr']
         self.features = set(self.tags)
+        # class of finding C02-init-output-renamed: an OUTPUT port whose (Verilog) name is the attribute that holds a DIFFERENT port
+        self.out_name_is_other_attr = bool(self.syntax) and any(
+            p['isOut'] and any(q is not p and q['pyattr'] == p['port'] for q in self.syntax['ports']) for p in self.syntax['ports'])
         if self.syntax:
             outattrs = {p['attr'] for p in self.syntax['ports'] if p['isOut']}
             if any(f'(get {a})' in self.syntax['sexp'] for a in outattrs):
@@ -364,6 +379,23 @@ def canon_module(t):
     ints = sorted([it for it in items if it[0] in ('int', 'inti')], key=lambda x: x[1])
     rest = [it for it in items if it[0] not in ('int', 'inti')]
     return vparse.sexp([t[0], t[1], t[2], t[3], ['items'] + ints + rest])
+
+
+def known_status(fid):
+    for k in PROPOSED_FINDINGS:
+        if k['id'] == fid:
+            return k.get('status')
+    return None
+
+
+def strip_init_targets(canon, d):
+    """canonical module text with the targets of the `initial` block's `<port> = 0` assignments blanked (ports only)"""
+    names = '|'.join(re.escape(p['port']) for p in d.syntax['ports'])
+    m = re.search(r'\(initial .*?\(always ', canon)
+    if not m or not names:
+        return canon
+    seg = re.sub(r'\(ba \(lid (?:' + names + r')\) \(num -1 1 0 1\)\)', '(ba (lid <port>) (num -1 1 0 1))', m.group(0))
+    return canon[:m.start()] + seg + canon[m.end():]
 
 
 def parse_sexp(s):
@@ -481,7 +513,7 @@ class Batch:
                 self.judge(jb, lo, vmap.get(i))
             except Exception as e:
                 d_ = jb['dut']
-                if d_.profile in ('safe', 'wild', 'refuse', 'nest'):
+                if d_.profile in ('safe', 'wild', 'refuse', 'nest', 'reinst'):
                     # a generated class that cannot be simulated / judged is a generator fault: recorded and skipped
                     res.hist('generator_faults', f'{d_.profile}:{type(e).__name__}')
                     res.notes.append(f'generator fault on {d_.label}: {type(e).__name__}: {str(e)[:80]}') if len(res.notes) < 10 else None
@@ -494,7 +526,7 @@ class Batch:
     def judge(self, jb, lean_out, vr):
         res, d, hist = self.res, jb['dut'], jb['history']
         base = dict(design=d.label, profile=d.profile, tags=sorted(d.features), features=sorted(d.features), src=d.src,
-                    reads_own_output='reads-own-output' in d.features,
+                    reads_own_output='reads-own-output' in d.features, out_name_is_other_attr=d.out_name_is_other_attr,
                     construct=next((t[7:] for t in d.features if t.startswith('refuse:')), None))
         real, rerr = d.run_real(hist)
         supported, reasons = None, []
@@ -566,7 +598,11 @@ class Batch:
         if supported and d.tree is not None and lean_out:
             mine = canon_module(parse_sexp(lean_out[1]))
             theirs = canon_module(d.tree[1])
-            if mine != theirs:
+            if mine != theirs and d.out_name_is_other_attr and known_status('C02-init-output-renamed') == 'known' and \
+                    strip_init_targets(mine, d) == strip_init_targets(theirs, d):
+                # finding C02-init-output-renamed: the two differ ONLY in which port the `initial` block's `<port>=0` names
+                res.hist('model_vs_text', 'equal-but-initial-output-names (C02-init-output-renamed)')
+            elif mine != theirs:
                 res.disagree('model-vs-text', dict(design=d.label, model=mine[:400], text=theirs[:400], src=d.src))
             else:
                 res.hist('model_vs_text', 'equal')
@@ -859,6 +895,25 @@ class WPutInClock(py4hw.Logic):
         self.b.put(self.a.get())
         self.r.prepare(self.b.get() + 1)
 
+class WSwapNames(py4hw.Logic):
+    def __init__(self, parent, name, a, b, r):
+        super().__init__(parent, name)
+        self.r = self.addIn('a', a)
+        self.b = self.addIn('b', b)
+        self.a = self.addOut('r', r)
+    def clock(self):
+        if self.b.get() == 1:
+            self.a.prepare(self.r.get() + self.a.get() + 0)
+
+class WChainNames(py4hw.Logic):
+    def __init__(self, parent, name, a, b, r):
+        super().__init__(parent, name)
+        self.b = self.addIn('a', a)
+        self.bb = self.addIn('b', b)
+        self.r = self.addOut('r', r)
+    def clock(self):
+        self.r.prepare(self.b.get() * 2 + self.bb.get())
+
 class WClash(py4hw.Logic):
     def __init__(self, parent, name, a, b, r):
         super().__init__(parent, name)
@@ -902,6 +957,10 @@ WITNESSES = [  # (class, history, expected finding id)
     ('WCombConst', [{'a': 1, 'b': 2}, {'a': 7, 'b': 9}], 'regression:agree'),
     # regression (fixed c2ba9bf): an output read before it was ever written starts at 0 on both sides
     ('WCountUp', [{'a': 1, 'b': 0}, {'a': 1, 'b': 0}, {'a': 0, 'b': 0}, {'a': 1, 'b': 0}], 'regression:agree'),
+    # an output port named like the attribute that holds another port: the `initial` block initialises the wrong port
+    ('WSwapNames', [{'a': 1, 'b': 1}, {'a': 2, 'b': 1}, {'a': 2, 'b': 0}], 'C02-init-output-renamed'),
+    # an INPUT port named like the attribute that holds another port: every get() must still name its own port
+    ('WChainNames', [{'a': 1, 'b': 1}, {'a': 2, 'b': 5}, {'a': 7, 'b': 0}], 'regression:agree'),
     # regression (fixed 5f87e48): a local named like a self attribute must be refused
     ('WClash', [{'a': 1, 'b': 0}, {'a': 1, 'b': 0}], 'regression:refuse'),
 ]
@@ -1099,8 +1158,12 @@ def run_all(res, tier, rng, tmpdir, quick):
                 r = rng.fork(('hist', c['name']))
                 wires = [(n, w, 'in') for n, w in c['ins']] + [(n, w, 'out') for n, w in c['outs']]
                 for hi in range(2 if quick else 3):
+                    # every further instance of the class gets OTHER constructor constants (same process: the text emitted for an
+                    # instance must not depend on which instances of its class were transpiled before)
+                    consts_ = c['consts'] if hi == 0 else c02_gen.alt_consts(r.fork(('alt', hi)), c['consts'])
                     try:
-                        d = Dut(f'gen/{profile}/{c["name"]}', getattr(mod, c['name']), wires, extra=[v for _, v in c['consts']],
+                        d = Dut(f'gen/{profile}/{c["name"]}' + (f'#{hi}' if hi and c['consts'] else ''), getattr(mod, c['name']), wires,
+                                extra=[v for _, v in consts_],
                                 src=c['src'], tags=c['tags'], profile=profile)
                     except Exception as e:
                         res.hist('generator_build_errors', type(e).__name__)
@@ -1123,6 +1186,44 @@ def run_all(res, tier, rng, tmpdir, quick):
                     bt.add(d, hist, 'gen')
             if len(bt.jobs) >= 1500:
                 bt.run()
+        bt.run()
+    # ---- (4b) transpilation HISTORY stream: several instances of the same class, constructed with different constructor constants and
+    #           different port widths, transpiled one after the other in the same process (A, B, A again, C): each emitted module must
+    #           follow ITS instance (no memoisation per class / per name / per source)
+    n_re = 10 if quick else 150
+    rcl = [c02_gen.gen_class(rng.fork(('reinst', i)), 900000 + i, 'safe', force_consts=True) for i in range(n_re)]
+    c02_gen.write_module(tmpdir, 'c02_gen_reinst', rcl)
+    try:
+        rmod = c02_gen.load_module(tmpdir, 'c02_gen_reinst')
+    except SyntaxError as e:
+        res.broken.append(('correspondence', 'generator', f'reinst module does not compile: {e}'))
+        rmod = None
+    if rmod is not None:
+        for c in rcl:
+            r = rng.fork(('reinst-h', c['name']))
+            wires0 = [(n, w, 'in') for n, w in c['ins']] + [(n, w, 'out') for n, w in c['outs']]
+            cB = c02_gen.alt_consts(r.fork('B'), c['consts'])
+            cC = c02_gen.alt_consts(r.fork('C'), cB)
+            variants = [('A', c['consts'], wires0), ('B', cB, wires0), ('A2', c['consts'], wires0),
+                        ('C', cC, c02_gen.alt_widths(r.fork('W'), wires0))]
+            for vn, consts_, wires in variants:
+                try:
+                    d = Dut(f'gen/reinst/{c["name"]}#{vn}', getattr(rmod, c['name']), wires, extra=[v for _, v in consts_],
+                            src=c['src'] + f'# constructor constants {consts_}, widths {[(n, w) for n, w, _ in wires]}\n',
+                            tags=c['tags'] + ['reinst:' + vn], profile='reinst')
+                except Exception as e:
+                    res.hist('generator_build_errors', type(e).__name__)
+                    break
+                if d.syntax is None:
+                    res.disagree('py2syntax', dict(design=d.label, error=d.syntax_err, src=c['src']))
+                res.hist('reinst_instances', vn)
+                nb = sum(w for _, w, dr in wires if dr == 'in')
+                if nb <= 6:
+                    hist = [dict(zip([n for n, _, dr in wires if dr == 'in'], split_bits(code, [w for _, w, dr in wires if dr == 'in'])))
+                            for code in r.shuffle(range(1 << nb))] * (2 if c['seq'] else 1)
+                else:
+                    hist = mk_history(r.fork(vn), d, 16 if quick else 40, 'dom')
+                bt.add(d, hist, 'gen')
         bt.run()
     # ---- (5) nesting / precedence stream: every ordered pair of operators, nested left and right, operand triples on which the
     #          two groupings differ (inside the domain)
@@ -1147,6 +1248,38 @@ def run_all(res, tier, rng, tmpdir, quick):
             res.hist('nest_expressions', 'with-distinguishing-vectors', sum(1 for e in c['exprs'] if e['n_diff']))
             hist = c['history'] if quick else c['history'] * 2 + mk_history(rng.fork(('nesth', c['name'])), d, 200, 'dom')
             bt.add(d, hist, 'nest')
+        bt.run()
+    # ---- (5b) the same with CONSTANT operands (literals, ord('c'), constructor constants): constant folding / collapsing
+    #      (5c) conditional idioms whose condition is a multi-bit value
+    kcl = c02_gen.gen_constnest_classes(rng.fork('constnest'), c02_gen.CONST_PATTERNS_2[:3] if quick else
+                                        c02_gen.CONST_PATTERNS_2 + c02_gen.CONST_PATTERNS_1, *((1, 0) if quick else (2, 1)))
+    icl = c02_gen.gen_idiom_classes(rng.fork('idiom'))
+    c02_gen.write_module(tmpdir, 'c02_gen_constnest', kcl + icl)
+    try:
+        kmod = c02_gen.load_module(tmpdir, 'c02_gen_constnest')
+    except SyntaxError as e:
+        res.broken.append(('correspondence', 'generator', f'constnest module does not compile: {e}'))
+        kmod = None
+    if kmod is not None:
+        for c in kcl + icl:
+            wires = [(n, w, 'in') for n, w in c['ins']] + [(n, w, 'out') for n, w in c['outs']]
+            stream = 'idiom' if 'idiom' in c['tags'] else 'constnest'
+            try:
+                d = Dut(f'gen/{stream}/{c["name"]}', getattr(kmod, c['name']), wires, extra=[v for _, v in c['consts']],
+                        src=c['src'], tags=c['tags'], profile='nest')
+            except Exception as e:
+                res.broken.append(('correspondence', stream + '-build', f'{c["name"]}: {type(e).__name__}: {e}'))
+                continue
+            if d.syntax is None:
+                res.disagree('py2syntax', dict(design=d.label, error=d.syntax_err))
+            if d.gen_err:
+                res.hist(stream + '_refused', d.gen_err[:60])
+            res.hist(stream + '_expressions', 'total', len(c['exprs']))
+            if stream == 'constnest':
+                res.hist('constnest_expressions', 'with-distinguishing-vectors', sum(1 for e in c['exprs'] if e['n_diff']))
+                for e in c['exprs']:
+                    res.hist('constnest_patterns', e['pattern'])
+            bt.add(d, c['history'], 'nest')
         bt.run()
 
 
